@@ -162,6 +162,31 @@ func c04WithUnusable(emit func(*h1.Scenario)) {
 	}
 }
 
+// c04WithHandover: in the same cycle a shard gives up a copy (a finished transfer, or a duplicate) and new
+// targets have to be placed: the load the shard REPORTED in this cycle still contains the copy it gives up.
+func c04WithHandover(emit func(*h1.Scenario)) {
+	product([]int{2, 3, 3, 3, 2, 2}, func(ix []int) {
+		head := []int64{0, 100}[ix[0]]
+		fill0 := []int64{40, 50, 60}[ix[1]]
+		fill1 := []int64{40, 55, 65}[ix[2]]
+		nw := []int64{15, 25, 35}[ix[3]]
+		srcState := []string{"in_transfer", ""}[ix[4]] // "" = a duplicate in normal state
+		b := newB(h1.Opt{MaxHead: head, MaxProc: 100, MaxShard: 99, IdleSec: 3600}, 2)
+		b.Target(100, 30, 30, true, "up")
+		b.Copy(0, 100, h1.St{State: srcState, Health: "up", Times: 5, Series: 30, Total: 30})
+		b.Copy(1, 100, h1.St{Health: "up", Times: []uint64{3, 7}[ix[5]], Series: 30, Total: 30})
+		b.Target(150, fill0, fill0, true, "down")
+		b.Copy(0, 150, h1.St{Health: "down", Times: 5, Series: fill0, Total: fill0})
+		b.Target(250, fill1, fill1, true, "down")
+		b.Copy(1, 250, h1.St{Health: "down", Times: 5, Series: fill1, Total: fill1})
+		b.Target(1, nw, nw, true, "up")
+		b.Target(2, 10, 10, true, "up")
+		sc := b.Done(7200)
+		sc.Note = fmt.Sprintf("target 100 on both shards (shard 0: %q), fillers %d/%d, new targets %d and 10", srcState, fill0, fill1, nw)
+		emit(sc)
+	})
+}
+
 func c04Oracle(sc *h1.Scenario, o *h1.Obs) []Finding {
 	var fs []Finding
 	opt := sc.Opt
@@ -387,6 +412,7 @@ func init() {
 			runH1(c, 2, two, c04Oracle, nontrivial)
 		}
 		runH1(c, 1, c04WithUnusable, c04Oracle, nontrivial)
+		runH1(c, 1, c04WithHandover, c04Oracle, nontrivial)
 		runH1(c, 1, c04Gen(c.Thorough()), c04Oracle, func(sc *h1.Scenario, o *h1.Obs) bool {
 			rep := &sc.Cycles[0][0]
 			for si := range rep.Shards {
